@@ -8,6 +8,8 @@ them is left as it is (and then makes the rule that meets it undecided, never si
   (x := E) in a statement ->  x = E before the statement, when E is the first thing the statement evaluates, or E is pure and
                              everything evaluated before it is a plain read
   x: T = v (in a function) -> x = v
+  with np.errstate(..) / nullcontext() / warnings.catch_warnings(): BODY  -> BODY      (inert contexts with literal arguments only)
+  try: BODY except ..: raise   -> BODY
   g = partial(f, a, ..)  ->  calls g(b, ..) become f(a, .., b, ..) when g is bound once to a local and the frozen arguments are names that
                              are not rebound afterwards
 """
@@ -269,6 +271,23 @@ def _partials(func, log, where):
         log.append(f'N0 {where}: partial object {g} inlined into its {len(calls)} call(s)')
 
 
+INERT_CONTEXTS = {'np.errstate', 'numpy.errstate', 'nullcontext', 'contextlib.nullcontext', 'warnings.catch_warnings', 'np.printoptions'}
+
+
+def _inert_context(e):
+    if not isinstance(e, ast.Call):
+        return False
+    f = e.func
+    parts = []
+    while isinstance(f, ast.Attribute):
+        parts.append(f.attr)
+        f = f.value
+    if not isinstance(f, ast.Name):
+        return False
+    name = '.'.join([f.id] + parts[::-1])
+    return name in INERT_CONTEXTS and all(isinstance(a, ast.Constant) for a in e.args) and all(isinstance(k.value, ast.Constant) for k in e.keywords)
+
+
 def _block(stmts, vararg, log, where):
     out = []
     for st in stmts:
@@ -286,6 +305,18 @@ def _block(stmts, vararg, log, where):
                 log.append(f'N0 {where}: match statement over {ast.unparse(st.subject)} rewritten as an if/elif chain ({len(st.cases)} cases)')
                 out.extend(r)
                 continue
+        if isinstance(st, ast.With) and all(_inert_context(i.context_expr) for i in st.items):
+            # a context manager that only changes numpy's error / print state or does nothing: the body runs as it stands
+            pre_ = [ast.copy_location(ast.Assign(targets=[i.optional_vars], value=i.context_expr, lineno=st.lineno), st) for i in st.items if i.optional_vars is not None]
+            log.append(f'N0 {where}: with-block over {", ".join(ast.unparse(i.context_expr)[:30] for i in st.items)} (inert context) replaced by its body')
+            out.extend(pre_ + list(st.body))
+            continue
+        if isinstance(st, ast.Try) and not st.orelse and not st.finalbody and st.handlers \
+                and all(len(h.body) == 1 and isinstance(h.body[0], ast.Raise) and h.body[0].exc is None for h in st.handlers):
+            # every handler re-raises what it caught: the statement is its body
+            log.append(f'N0 {where}: try-block whose handlers only re-raise replaced by its body')
+            out.extend(st.body)
+            continue
         if isinstance(st, ast.AnnAssign):
             # x: T = v  ->  x = v ;  a bare declaration `x: T` has no effect at run time (inside a function)
             if st.value is None:
@@ -307,7 +338,7 @@ def _block(stmts, vararg, log, where):
 def desugar_tree(tree, path, log):
     for node in ast.walk(tree):
         if isinstance(node, (ast.FunctionDef, ast.AsyncFunctionDef)):
-            if not any(isinstance(n, (ast.Match, ast.NamedExpr, ast.AnnAssign)) or (isinstance(n, ast.Call) and (getattr(n.func, 'id', None) == 'partial' or getattr(n.func, 'attr', None) == 'partial'))
+            if not any(isinstance(n, (ast.Match, ast.NamedExpr, ast.AnnAssign, ast.With, ast.Try)) or (isinstance(n, ast.Call) and (getattr(n.func, 'id', None) == 'partial' or getattr(n.func, 'attr', None) == 'partial'))
                        for n in ast.walk(node)):
                 continue
             where = f'{path}::{node.name}'
